@@ -40,6 +40,15 @@ def case_model(name, rep):
         nb = 2 if m.heavy else 4
         batch = (1, nb)
         F = batch_F(rng, batch, lo=0.75, hi=1.4)
+        if rep % 2 == 1:
+            # coincident principal stretches (where eigenvalue-based models switch to their regularised branch): uniaxial,
+            # equibiaxial, pure dilatation, pure rotation - each in a rotated frame
+            from ..util import random_rotation
+            kinds = [lambda l: np.diag([l, l ** -0.5, l ** -0.5]), lambda l: np.diag([l, l, l ** -1.2]), lambda l: l * np.eye(3), lambda l: np.eye(3)]
+            for k in range(nb):
+                Rm, Qm = random_rotation(rng, 3), random_rotation(rng, 3)
+                F[:, :, 0, k] = Rm @ Qm @ kinds[(k + rep // 2) % 4](float(rng.uniform(0.8, 1.35))) @ Qm.T
+            run.units["states:coincident-principal-stretches"] += 1
         sv = C03.prior_state(m, um, rng, batch)
         mon = "material.invariance"
         tol = tol_for(m)
@@ -101,7 +110,7 @@ def cases(tier, seed):
     return out
 
 
-ISO = [n for n in C03.NAMES if not any(k in n for k in ("orthotropic", "miehe", "representative_directions", "viscoelastic", "lagrange.morph"))]
+ISO = [n for n in C03.NAMES if not any(k in n for k in ("orthotropic", "miehe", "representative_directions", "viscoelastic", "lagrange.morph", "microsphere"))]
 HYPER = [n for n in C03.NAMES if not any(k in n for k in ("OgdenRoxburgh", "ogden_roxburgh", "viscoelastic", "morph", "total_lagrange", "updated_lagrange"))]
 
 
